@@ -140,10 +140,15 @@ func NewFBDNSDB(handlerConfig HandlerConfig, dbConfig DBConfig, cacheConfig Cach
 		return nil, err
 	}
 	go func() {
-		for s := range tdb.ReloadChan {
-			err := tdb.Reload(s)
-			if err != nil {
-				glog.Errorf("Failed to reload: %v", err)
+		for {
+			select {
+			case <-tdb.done:
+				return
+			case s := <-tdb.ReloadChan:
+				err := tdb.Reload(s)
+				if err != nil {
+					glog.Errorf("Failed to reload: %v", err)
+				}
 			}
 		}
 	}()
@@ -208,8 +213,21 @@ func (h *FBDNSDB) PeriodicDBReload(reloadInt int) {
 		case <-h.done:
 			return
 		case <-ticker.C:
-			h.ReloadChan <- *NewPartialReloadSignal()
+			if !h.signalReload(*NewPartialReloadSignal()) {
+				return
+			}
 		}
+	}
+}
+
+// signalReload hands a reload signal to the consumer of ReloadChan. It returns
+// false, without sending, once the handler is being closed.
+func (h *FBDNSDB) signalReload(s ReloadSignal) bool {
+	select {
+	case <-h.done:
+		return false
+	case h.ReloadChan <- s:
+		return true
 	}
 }
 
@@ -226,7 +244,9 @@ func (h *FBDNSDB) watchDBAndReload(watcher *fsnotify.Watcher) (err error) {
 			return nil
 		case ev := <-watcher.Events:
 			if filterEvent(ev.Op) && path.Clean(ev.Name) == h.currentDBPath() {
-				h.ReloadChan <- *NewPartialReloadSignal()
+				if !h.signalReload(*NewPartialReloadSignal()) {
+					return nil
+				}
 			}
 		}
 	}
@@ -292,14 +312,18 @@ func (h *FBDNSDB) watchControlDirAndReload(watcher *fsnotify.Watcher) (err error
 			switch name {
 			case ControlFilePartialReload:
 				glog.Infof("Found patial reload trigger file")
-				h.ReloadChan <- *NewPartialReloadSignal()
+				if !h.signalReload(*NewPartialReloadSignal()) {
+					return nil
+				}
 			case ControlFileFullReload:
 				glog.Infof("Found full reload trigger file")
 				newPath, err := getNewDBPath(cp)
 				if err != nil {
 					return fmt.Errorf("getting new DB path: %w", err)
 				}
-				h.ReloadChan <- *NewFullReloadSignal(newPath)
+				if !h.signalReload(*NewFullReloadSignal(newPath)) {
+					return nil
+				}
 			default:
 				glog.Infof("Ignoring unknown file in control directory: %s", name)
 			}
@@ -411,14 +435,15 @@ func (h *FBDNSDB) cacheAdd(generation uint64, key string, entry cacheEntry) {
 	}
 }
 
-// Close closes the database. It also takes care of closing the channel used
-// for periodic reloading.
+// Close closes the database. It also stops the periodic reloading, the
+// watchers and the consumer of ReloadChan. ReloadChan itself is not closed:
+// a watcher or the periodic ticker may be in the middle of sending to it, and
+// a send on a closed channel would crash the process during shutdown.
 func (h *FBDNSDB) Close() {
 	h.reloadMu.Lock()
 	defer h.reloadMu.Unlock()
 	glog.Infof("Closing DB")
 	close(h.done)
-	close(h.ReloadChan)
 	h.dnsdb.Destroy()
 }
 
